@@ -17,6 +17,8 @@
    `l.pos--` re-reads one byte once per line) and returns [Diverge] when it runs out: that
    is the Go loop that keeps calling next() at end of input.  [OutOfFuel] is the budget of
    [run]; [OutOfModel] is an error item at a negative position (the token record has N).
+   Item positions are base + pos, as in Go: base is 0 for lex and lexExpr, and the offset
+   of the quoted expression in its file for lexExprAt (used by parseQuotedExpr).
 
    The model describes the code with the three scanner repairs this check proposed
    (notes/applied/C05-lexcss-eof, C05-headerparam-eof, C05-soydocparam-eof; in /repo as
@@ -110,6 +112,7 @@ Section Lexer.
 Variable uni_letter uni_digit : Z -> bool.   (* unicode.IsLetter, unicode.IsDigit *)
 Variable inp : bstr.                          (* l.input *)
 Variable ilen : Z.                            (* len(l.input) *)
+Variable base : Z.                            (* l.base: the offset of input in the enclosing file (lexExprAt), else 0 *)
 
 Definition is_alnum (r : Z) : bool := gen_isAlphaNumeric uni_letter uni_digit r.
 
@@ -140,15 +143,15 @@ Definition ignore (l : lx) : lx := set_start l (l_pos l).
 Definition emit (t : N) (l : lx) : outcome lx :=
   let l1 := if ilen <? l_pos l then set_pos l ilen else l in
   v <- slice (l_start l1) (l_pos l1) ;;
-  let it := {| t_typ := t; t_pos := Z.to_N (l_pos l1); t_val := v |} in
+  let it := {| t_typ := t; t_pos := Z.to_N (base + l_pos l1); t_val := v |} in
   Ok {| l_pos := l_pos l1; l_start := l_pos l1; l_width := l_width l1; l_dd := l_dd l1; l_last := it;
         l_out := it :: l_out l1; l_ticks := l_ticks l1 |}.
 
 (* func (l *lexer) errorf: sends the error item (lastEmit and start untouched), next state nil *)
 Definition errorf (class : bstr) (l : lx) : outcome (lstate * lx) :=
-  if l_pos l <? 0 then OutOfModel
+  if base + l_pos l <? 0 then OutOfModel
   else Ok (LDone, {| l_pos := l_pos l; l_start := l_start l; l_width := l_width l; l_dd := l_dd l; l_last := l_last l;
-                     l_out := {| t_typ := itemError; t_pos := Z.to_N (l_pos l); t_val := class |} :: l_out l; l_ticks := l_ticks l |}).
+                     l_out := {| t_typ := itemError; t_pos := Z.to_N (base + l_pos l); t_val := class |} :: l_out l; l_ticks := l_ticks l |}).
 
 (* func (l *lexer) accept(valid string) bool *)
 Definition accept (valid : bstr) (l : lx) : outcome (bool * lx) :=
@@ -579,53 +582,59 @@ Definition lex_literal (l : lx) : outcome (lstate * lx) :=
 
 (* ---------------- numbers ---------------- *)
 
-(* func scanNumber(l *lexer) (typ itemType, ok bool) *)
+(* func scanNumber(l *lexer) (typ itemType, ok bool), in four pieces: the hexadecimal branch, the
+   mantissa and the exponent of the decimal branch (inl = an early `return` with ok = false,
+   inr = fall through with the type so far), and the function itself with the common tail
+   "next thing must not be alphanumeric". *)
+Definition scan_hex (l1 : lx) : outcome (N * lx + N * lx) :=
+  let l2 := set_pos l1 (l_pos l1 + num_hex_prefix_len) in        (* l.pos += 2 *)
+  '(some, l3) <- accept_run hex_digits_set l2 ;;
+  if negb some then Ok (inl (itemInteger, l3))
+  else
+    '(dot, l4) <- accept num_dot_set l3 ;;
+    if dot then Ok (inl (itemInteger, l4)) else Ok (inr (itemInteger, l4)).
+
+Definition scan_mantissa (hasSign : bool) (l1 : lx) : outcome (N * lx + N * lx) :=
+  '(some, l2) <- accept_run dec_digits_set l1 ;;
+  if negb some then Ok (inl (itemInteger, l2))
+  else
+    '(dot, l3) <- accept num_dot_set l2 ;;
+    if dot then
+      '(frac, l4) <- accept_run dec_digits_set l3 ;;
+      if negb frac then Ok (inl (itemInteger, l4)) else Ok (inr (itemFloat, l4))
+    else
+      c0 <- (if negb hasSign then byte_at (l_start l3) else Ok 0) ;;
+      c1 <- (if hasSign then byte_at (l_start l3 + 1) else Ok 0) ;;
+      if (negb hasSign && (c0 =? 48) && (l_start l3 + 1 <? l_pos l3))
+         || (hasSign && (c1 =? 48) && (l_start l3 + 2 <? l_pos l3))
+      then Ok (inl (itemInteger, l3)) else Ok (inr (itemInteger, l3)).
+
+Definition scan_exponent (t : N) (l4 : lx) : outcome (N * lx + N * lx) :=
+  '(e, l5) <- accept num_exp_set l4 ;;
+  if e then
+    '(_, l6) <- accept num_sign_set l5 ;;
+    '(ds, l7) <- accept_run dec_digits_set l6 ;;
+    if negb ds then Ok (inl (t, l7)) else Ok (inr (itemFloat, l7))
+  else Ok (inr (t, l5)).
+
 Definition scan_number (l : lx) : outcome (N * bool * lx) :=
   '(hasSign, l1) <- accept num_sign_set l ;;
   hex <- (if l_pos l1 + 2 <=? ilen then pre <- slice (l_pos l1) (l_pos l1 + 2) ;; Ok (bstr_eqb pre num_hex_prefix) else Ok false) ;;
-  if hex then
-    if hasSign then Ok (itemInteger, false, l1)
-    else
-      let l2 := set_pos l1 (l_pos l1 + num_hex_prefix_len) in        (* l.pos += 2 *)
-      '(some, l3) <- accept_run hex_digits_set l2 ;;
-      if negb some then Ok (itemInteger, false, l3)
-      else
-        '(dot, l4) <- accept num_dot_set l3 ;;
-        if dot then Ok (itemInteger, false, l4)
+  r <- (if hex then
+          if hasSign then Ok (inl (itemInteger, l1)) else scan_hex l1
         else
-          '(p, l5) <- peek l4 ;;
-          if is_alnum p then '(_, l6) <- next l5 ;; Ok (itemInteger, false, l6) else Ok (itemInteger, true, l5)
-  else
-    '(some, l2) <- accept_run dec_digits_set l1 ;;
-    if negb some then Ok (itemInteger, false, l2)
-    else
-      '(dot, l3) <- accept num_dot_set l2 ;;
-      (* inl = early `return` (typ, ok = false) *)
-      r <- (if dot then
-              '(frac, l4) <- accept_run dec_digits_set l3 ;;
-              if negb frac then Ok (inl (itemInteger, l4)) else Ok (inr (itemFloat, l4))
-            else
-              c0 <- (if negb hasSign then byte_at (l_start l3) else Ok 0) ;;
-              c1 <- (if hasSign then byte_at (l_start l3 + 1) else Ok 0) ;;
-              if (negb hasSign && (c0 =? 48) && (l_start l3 + 1 <? l_pos l3))
-                 || (hasSign && (c1 =? 48) && (l_start l3 + 2 <? l_pos l3))
-              then Ok (inl (itemInteger, l3)) else Ok (inr (itemInteger, l3))) ;;
-      match r with
-      | inl (t, l4) => Ok (t, false, l4)
-      | inr (t, l4) =>
-          '(e, l5) <- accept num_exp_set l4 ;;
-          r2 <- (if e then
-                   '(_, l6) <- accept num_sign_set l5 ;;
-                   '(ds, l7) <- accept_run dec_digits_set l6 ;;
-                   if negb ds then Ok (inl (t, l7)) else Ok (inr (itemFloat, l7))
-                 else Ok (inr (t, l5))) ;;
-          match r2 with
-          | inl (t2, l6) => Ok (t2, false, l6)
-          | inr (t2, l6) =>
-              '(p, l7) <- peek l6 ;;
-              if is_alnum p then '(_, l8) <- next l7 ;; Ok (t2, false, l8) else Ok (t2, true, l7)
-          end
-      end.
+          m <- scan_mantissa hasSign l1 ;;
+          match m with
+          | inl e => Ok (inl e)
+          | inr (t, l4) => scan_exponent t l4
+          end) ;;
+  match r with
+  | inl (t, l2) => Ok (t, false, l2)
+  | inr (t, l2) =>
+      (* Next thing must not be alphanumeric. *)
+      '(p, l3) <- peek l2 ;;
+      if is_alnum p then '(_, l4) <- next l3 ;; Ok (t, false, l4) else Ok (t, true, l3)
+  end.
 
 Definition lex_number (l : lx) : outcome (lstate * lx) :=
   '(t, ok, l1) <- scan_number l ;;
@@ -668,14 +677,22 @@ Fixpoint run (fuel : nat) (st : lstate) (l : lx) : outcome lx :=
 
 End Lexer.
 
-(* the two entry points: lex (files: first state lexText) and lexExpr (first state lexInsideTag) *)
+(* the entry points: lex (files: first state lexText), lexExpr and lexExprAt (first state lexInsideTag;
+   lexExprAt sends positions shifted by base, the other two have base 0) *)
 Definition entry_state (expr_mode : bool) : lstate := if expr_mode then LInsideTag else LText.
 
+Definition lex_run_at (uni_letter uni_digit : Z -> bool) (base : Z) (fuel : nat) (expr_mode : bool) (s : bstr) : outcome lx :=
+  run uni_letter uni_digit s (Z.of_nat (length s)) base fuel (entry_state expr_mode) lex_init.
+
 Definition lex_run (uni_letter uni_digit : Z -> bool) (fuel : nat) (expr_mode : bool) (s : bstr) : outcome lx :=
-  run uni_letter uni_digit s (Z.of_nat (length s)) fuel (entry_state expr_mode) lex_init.
+  lex_run_at uni_letter uni_digit 0 fuel expr_mode s.
 
 Definition lex_items (uni_letter uni_digit : Z -> bool) (fuel : nat) (expr_mode : bool) (s : bstr) : outcome (list tok) :=
   l <- lex_run uni_letter uni_digit fuel expr_mode s ;; Ok (rev (l_out l)).
+
+(* lexExprAt(name, s, outer, base) *)
+Definition lex_items_at (uni_letter uni_digit : Z -> bool) (base : Z) (fuel : nat) (s : bstr) : outcome (list tok) :=
+  l <- lex_run_at uni_letter uni_digit base fuel true s ;; Ok (rev (l_out l)).
 
 (* the budget the totality theorem proves sufficient (Proofs/LexerProofs.v) *)
 Definition lex_budget (s : bstr) : nat := 40 + 40 * length s.
